@@ -39,6 +39,22 @@ namespace
 
     int val_of(int x) { return x; }
     int val_of(const tracked::T &t) { return t.value(); }
+    // a trivially copyable element whose value is not its representation: equality and order look at `v` only (the way
+    // +0.0 == -0.0, or a record with a cache field or padding), `tag` differs between any two separately made objects
+    struct Loose
+    {
+        int v;
+        unsigned tag;
+        static unsigned next_tag;
+        Loose() : v(0), tag(next_tag++) {}
+        Loose(int x) : v(x), tag(next_tag++) {}
+        bool operator==(const Loose &o) const { return v == o.v; }
+        bool operator!=(const Loose &o) const { return v != o.v; }
+        bool operator<(const Loose &o) const { return v < o.v; }
+    };
+    unsigned Loose::next_tag = 1;
+    static_assert(std::is_trivially_copyable<Loose>::value, "Loose must be trivially copyable");
+    int val_of(const Loose &t) { return t.v; }
 
     enum { V_PUSH, V_EMPLACE_BACK, V_INSERT, V_EMPLACE, V_INSERT_RANGE, V_ERASE_RANGE, V_ERASE_TAIL, V_POP, V_RESIZE, V_RESERVE, V_CLEAR,
            V_COPY_CTOR, V_MOVE_CTOR, V_COPY_ASSIGN, V_SELF_ASSIGN, V_MOVE_ASSIGN, V_COMPARE, V_AT, V_INSERT_SORTED, V_CTOR_N, V_CTOR_RANGE,
@@ -86,6 +102,7 @@ namespace
             Result res;
             simalloc::st().reset((int)p.c(0), p.c(1) != 0);
             tracked::reg().reset("C02");
+            Loose::next_tag = 1;
             if (mod(p.c(0), 4) == 1) probe("fill_0xFF_memory");
             bool realloc_seen = false, mid_edit = false;
             {
@@ -288,6 +305,20 @@ namespace
                         if (lt != (m[0] < m[1])) violate("C02/compare-lt", "operator< gives %d, std::vector gives %d", (int)lt, (int)(m[0] < m[1]));
 #endif
                         if (!(x == x)) violate("C02/compare-eq", "a vector does not compare equal to itself");
+                        if (eq && !m[0].empty()) probe("equal_non_empty_vectors_compared");
+                        {
+                            // a separately built vector with equal elements compares equal; with one element changed it does not
+                            Vec y;
+                            for (int e : mx) y.push_back(E(e));
+                            if (!(x == y) || (x != y) || !(y == x)) violate("C02/compare-eq", "two vectors with equal elements (size %zu) do not compare equal", mx.size());
+                            if (!mx.empty())
+                            {
+                                size_t j = (size_t)mod(arg(o, 2), (int64_t)mx.size());
+                                y[j] = E(mx[j] + 1);
+                                if ((x == y) || !(x != y)) violate("C02/compare-eq", "vectors differing in element %zu compare equal", j);
+                                probe("equal_non_empty_vectors_compared");
+                            }
+                        }
                         break;
                     }
                     case V_AT:
@@ -522,6 +553,7 @@ int main(int argc, char **argv)
 {
     VecWorld<int> wi(PROP_WORLD "<int>", false);
     VecWorld<tracked::T> wt(PROP_WORLD "<Tracked>", true);
+    VecWorld<Loose> wl(PROP_WORLD "<trivially-copyable-with-own-equality>", false);
     Harness h;
     h.property = "C02";
     h.worlds = {&wi, &wt};
@@ -532,6 +564,7 @@ int main(int argc, char **argv)
 #else
     h.real = {"igris/container/std_portable.h (igris::vector twin, igris::allocator replaced through the Allocator parameter)"};
 #endif
+    h.worlds.push_back(&wl);
     h.stub = {"SimAlloc behind the Allocator parameter (exact-size blocks, seed-chosen fill and reuse)", "Tracked element type (lifetime registry)", "std::vector / std::map / std::set reference"};
     return harness_main(h, argc, argv);
 }
